@@ -67,11 +67,13 @@ impl<M: MagneticMoment> StandardizedMagneticCell<M> {
         )?;
 
         // Need to rotate magnetic moments because the standardization rotates the ref cell.
-        let prim_std_magnetic_moments_tmp = (0..prim_mag_cell.magnetic_cell.magnetic_moments.len())
-            .map(|i| {
-                prim_mag_cell.magnetic_cell.magnetic_moments[ref_std_cell.site_mapping[i]]
-                    .act_rotation(&ref_std_cell.rotation_matrix, action)
-            })
+        // `ref_std_cell.prim_cell` keeps the site order of the input primitive cell
+        // (`ref_std_cell.site_mapping` maps sites of the conventional cell, not of the primitive one).
+        let prim_std_magnetic_moments_tmp = prim_mag_cell
+            .magnetic_cell
+            .magnetic_moments
+            .iter()
+            .map(|m| m.act_rotation(&ref_std_cell.rotation_matrix, action))
             .collect::<Vec<_>>();
         let cart_rotations = magnetic_symmetry_search
             .magnetic_operations
